@@ -24,6 +24,17 @@ KINDS = {
     "GS": "http GET snap - hyph=1 absent e",
     "GSnew": "http GET snap - hyph=5 absent e",
 }
+# second family: client 1 has four versions and NO snapshot, so that several AddSnapshot requests
+# for different versions are all acceptable when validated (ver:1:3 is the latest)
+KINDS2 = {
+    "ASv1": "http POST as hyph=ver:1:1 hyph=1 snapshot b:{d}",
+    "ASv2": "http POST as hyph=ver:1:2 hyph=1 snapshot b:{d}",
+    "ASv3": "http POST as hyph=ver:1:3 hyph=1 snapshot b:{d}",
+    "AVlatest4": "http POST av hyph=ver:1:3 hyph=1 history b:{d}",
+    "GS4": "http GET snap - hyph=1 absent e",
+}
+PREFIX2 = ["http POST av hyph=nil hyph=1 history b:1", "http POST av hyph=latest:1 hyph=1 history b:2",
+           "http POST av hyph=latest:1 hyph=1 history b:3", "http POST av hyph=latest:1 hyph=1 history b:4"]
 PREFIX = ["http POST av hyph=nil hyph=1 history b:1", "http POST av hyph=latest:1 hyph=1 history b:2",
           "http POST as hyph=latest:1 hyph=1 snapshot b:100", "http POST av hyph=latest:1 hyph=1 history b:3"]
 
@@ -105,6 +116,17 @@ class C03(L1Prop):
                     ops = list(PREFIX) + ["conc " + mode + " " + " || ".join(reqs) + " ## " + " ".join(s), "dump 1", "dump 5"]
                     out.append(Case(f"c03-{k}", ops, {"reqs": reqs, "group": f"{a}+{b}", "sched": s, "cmode": mode}, mode="http"))
                     k += 1
+        # overlapping AddSnapshot requests for different acceptable versions (validation and store
+        # must be one transaction: the snapshot never ends up on the older version)
+        for (a, b) in [("ASv1", "ASv2"), ("ASv1", "ASv3"), ("ASv2", "ASv3"), ("ASv2", "AVlatest4"), ("ASv1", "GS4")]:
+            for mode in ("shared", "multi"):
+                for s in scheds2:
+                    if mode == "multi" and tier != "thorough" and (len(s) != 4 or s.count("0") != 2):
+                        continue
+                    reqs = [KINDS2[a].format(d="21"), KINDS2[b].format(d="22")]
+                    ops = list(PREFIX2) + ["conc " + mode + " " + " || ".join(reqs) + " ## " + " ".join(s), "dump 1", "dump 5"]
+                    out.append(Case(f"c03-{k}", ops, {"reqs": reqs, "group": f"{a}+{b}", "sched": s, "cmode": mode, "prefix": list(PREFIX2)}, mode="http"))
+                    k += 1
         triples = [("AVnew", "ASnewP", "AVnewP"), ("AVnew", "AVnew", "GCVnew"), ("AVnewP", "ASnewP", "GSnew"),
                    ("AVlatest", "AVlatest", "ASlatest"), ("AVlatest", "GCVlatest", "GS"), ("AVnew", "ASnewNil", "AVnew")]
         nsch = sizes(tier, 12, 300)
@@ -154,7 +176,7 @@ class C03(L1Prop):
         reqs = case.meta["reqs"]
         out = []
         for perm in itertools.permutations(range(len(reqs))):
-            ops = list(PREFIX) + [reqs[j] for j in perm] + ["dump 1", "dump 5"]
+            ops = list(case.meta.get("prefix", PREFIX)) + [reqs[j] for j in perm] + ["dump 1", "dump 5"]
             name = "c03seq-" + re.sub(r"[^A-Za-z0-9+]", "", case.meta["group"]) + "-" + "".join(map(str, perm))
             out.append((Case(name, ops, {"perm": perm}, mode="http"), perm))
         return out
@@ -166,7 +188,7 @@ class C03(L1Prop):
         got_resps, got_state, reqs = block_sig(trace, i + 1, n)
         cands = []
         for perm, st in derived:
-            start = len(PREFIX)
+            start = len(case.meta.get("prefix", PREFIX))
             resps, state, _ = block_sig(st, start, n)
             # responses are listed in execution order: map back to request index
             by_req = [None] * n
@@ -219,6 +241,7 @@ def overlap_cases(prop, rng, tier):
         "C08": [("AVlatest", "GCVlatest"), ("AVnew", "GCVnew"), ("AVlatest", "AVlatest")],
         "C11": [("ASlatest", "GS"), ("ASlatest", "AVlatest"), ("ASlatest", "ASlatest")],
         "C01": [("AVlatest", "AVlatest"), ("AVnew", "AVnew")],
+        "C10": [("ASv1", "ASv2"), ("ASv1", "ASv3"), ("ASv2", "ASv3"), ("ASv3", "AVlatest4")],
     }[prop]
     scheds = [list(s) for s in itertools.product("01", repeat=4)] if tier == "thorough" else \
              [list("0011"), list("0101"), list("0110"), list("1001"), list("0001"), list("1000"), list("0100")]
@@ -226,8 +249,9 @@ def overlap_cases(prop, rng, tier):
     k = 0
     for (a, b) in groups:
         for s in scheds:
-            reqs = [KINDS[a].format(d="21"), KINDS[b].format(d="22")]
-            ops = list(PREFIX) + ["conc shared " + " || ".join(reqs) + " ## " + " ".join(s), "dump 1", "dump 5", "walk 1", "walk 5",
+            kk = KINDS2 if a in KINDS2 else KINDS
+            reqs = [kk[a].format(d="21"), kk[b].format(d="22")]
+            ops = list(PREFIX2 if a in KINDS2 else PREFIX) + ["conc shared " + " || ".join(reqs) + " ## " + " ".join(s), "dump 1", "dump 5", "walk 1", "walk 5",
                                   "http GET gcv hyph=ver:1:2 hyph=1 absent e", "http GET snap - hyph=1 absent e", "swalk 1"]
             out.append(Case(f"{prop.lower()}-ovl-{k}", ops, {"reqs": reqs, "group": f"{a}+{b}", "sched": s, "cmode": "shared", "overlap": True}, mode="http"))
             k += 1
@@ -273,6 +297,26 @@ def overlap_oracle(prop, case, trace, backend):
                     fails.append(f"GetChildVersion answered gone although an AddVersion on that parent is accepted before and its child exists after {where}")
             if h.route == "gcv" and r.status >= 500:
                 fails.append(f"GetChildVersion answered {r.status} {where}")
+    if prop == "C10":
+        # both uploads were acceptable when the overlap began (no snapshot yet, both within the five
+        # most recent): whatever the order, the stored snapshot must end up on the NEWER version
+        d = dumps[0] if dumps else None
+        ups = [(h, r) for h, r in reqs if h.route == "as"]
+        for h, r in ups:
+            if r.status != 200:
+                fails.append(f"AddSnapshot answered {r.status} during the overlap {where}")
+        if d is not None and d.ok and not d.absent and ups:
+            ids, _ = d.chain_back()
+            pos = {v: k for k, v in enumerate(ids)}        # 0 = latest
+            cands = [int(h.seg) for h, r in ups if h.seg.isdigit() and int(h.seg) in pos]
+            if cands:
+                newest = min(cands, key=lambda v: pos[v])
+                if d.snap is None or d.snap[0] != newest:
+                    fails.append(f"after overlapping AddSnapshot for {cands} the stored snapshot is {d.snap}, the newer acceptable version is {newest}: the snapshot moved backwards or was lost {where}")
+                else:
+                    up = [hh for hh, rr in ups if int(hh.seg) == newest][0]
+                    if d.data != up.body():
+                        fails.append(f"snapshot version {newest} is stored with bytes `{d.data[:30]}` of another upload {where}")
     if prop == "C11":
         for h, r in reqs:
             if h.route == "snap" and r.status == 200:
